@@ -7,6 +7,7 @@ pub mod c07;
 pub mod ops;
 pub mod c10;
 pub mod c11;
+pub mod c12;
 pub mod c14;
 pub mod c16;
 pub mod c15;
@@ -23,6 +24,7 @@ pub fn run(args: &Args) -> i32 {
         "C01" | "C02" | "C03" | "C06" | "C09" => ops::run(args),
         "C10" => c10::run(args),
         "C11" => c11::run(args),
+        "C12" => c12::run(args),
         "C14" => c14::run(args),
         "smoke" => smoke::run(args),
         "C16" => c16::run(args),
